@@ -797,6 +797,13 @@ theorem runAttempts_conserves (cfg : Cfg) (hrs : 0 < cfg.recvsize) :
 
 /-! ### send side -/
 
+theorem popClock_length {s r : List SEv} (h : popClock s = some r) : r.length < s.length := by
+  cases s with
+  | nil => simp [popClock] at h
+  | cons e s =>
+    cases e <;> simp [popClock] at h
+    subst h; simp
+
 theorem sendLoop_ok : ∀ (script : List SEv) (buf : Bytes) (total : Nat) (wire : Bytes),
     (sendLoop script buf total wire).2.wire ++ (sendLoop script buf total wire).2.sbuf.flatten = wire ++ buf ∧
     wire <+: (sendLoop script buf total wire).2.wire ∧
@@ -827,20 +834,31 @@ theorem sendLoop_ok : ∀ (script : List SEv) (buf : Bytes) (total : Nat) (wire 
     | cons b buf =>
       cases e with
       | timeout => simp [sendLoop]
+      | clock => simp [sendLoop]
       | accept k =>
         simp only [sendLoop]
-        obtain ⟨h1, h2, h3, h4, h5, h6⟩ := ih ((b :: buf).drop k) (total + min k (b :: buf).length)
-          (wire ++ (b :: buf).take k)
-        refine ⟨?_, ?_, h3, ?_, ?_, ?_⟩
-        · rw [h1, List.append_assoc, List.take_append_drop]
-        · exact (List.prefix_append _ _).trans h2
-        · intro n hn
-          obtain ⟨a, c⟩ := h4 n hn
-          refine ⟨a, ?_⟩
-          simp only [List.length_append, List.length_take] at c
-          omega
-        · intro ht; have := h5 ht; simp only [List.length_cons] at *; omega
-        · simp only [List.length_cons] at *; omega
+        cases hp : popClock script with
+        | some r' =>
+          have hlen : r'.length < script.length := popClock_length hp
+          simp only
+          refine ⟨?_, by simp, by simp, by simp, ?_, ?_⟩
+          · simp [List.append_assoc, List.take_append_drop]
+          · intro _; simp only [List.length_cons]; omega
+          · simp only [List.length_cons]; omega
+        | none =>
+          simp only
+          obtain ⟨h1, h2, h3, h4, h5, h6⟩ := ih ((b :: buf).drop k) (total + min k (b :: buf).length)
+            (wire ++ (b :: buf).take k)
+          refine ⟨?_, ?_, h3, ?_, ?_, ?_⟩
+          · rw [h1, List.append_assoc, List.take_append_drop]
+          · exact (List.prefix_append _ _).trans h2
+          · intro n hn
+            obtain ⟨a, c⟩ := h4 n hn
+            refine ⟨a, ?_⟩
+            simp only [List.length_append, List.length_take] at c
+            omega
+          · intro ht; have := h5 ht; simp only [List.length_cons] at *; omega
+          · simp only [List.length_cons] at *; omega
 
 theorem flatten_filter_isNonEmpty : ∀ (L : List Bytes), (L.filter isNonEmpty).flatten = L.flatten := by
   intro L
@@ -1197,6 +1215,82 @@ theorem parseNat_digits (n : Nat) : parseNat (digits n) = some n := by
   rw [if_pos ⟨digits_ne_nil n, digits_all n⟩]
   exact congrArg some (digits_val n)
 
+/-! #### Python's lenient int() agrees with the strict syntax on strict input -/
+
+theorem isDigit_not_space {b : Nat} (h : isDigit b = true) : isSpace b = false := by
+  simp only [isDigit, Bool.and_eq_true, decide_eq_true_eq] at h
+  simp only [isSpace, Bool.or_eq_false_iff, Bool.and_eq_false_iff, beq_eq_false_iff_ne, ne_eq,
+    decide_eq_false_iff_not]
+  omega
+
+theorem stripL_digit_head {b : Nat} {bs : Bytes} (h : isDigit b = true) : stripL (b :: bs) = b :: bs := by
+  simp [stripL, isDigit_not_space h]
+
+theorem parseBody_digits : ∀ (ds : Bytes) (acc : Nat) (p : Prev), ds.all isDigit = true →
+    (ds ≠ [] ∨ p = .digit) → parseBody acc p ds = some (ds.foldl (fun a b => a * 10 + (b - 48)) acc) := by
+  intro ds
+  induction ds with
+  | nil =>
+    intro acc p _ h
+    rcases h with h | h
+    · exact absurd rfl h
+    · simp [parseBody, h]
+  | cons b bs ih =>
+    intro acc p hall _
+    simp only [List.all_cons, Bool.and_eq_true] at hall
+    simp only [parseBody, hall.1, ↓reduceIte, List.foldl_cons]
+    exact ih _ .digit hall.2 (Or.inr rfl)
+
+theorem parsePyInt_strict {bs : Bytes} (hne : bs ≠ []) (hall : bs.all isDigit = true) :
+    parsePyInt bs = some (Int.ofNat (bs.foldl (fun a b => a * 10 + (b - 48)) 0)) := by
+  -- first and last byte are digits, so nothing is stripped; the first byte is no sign
+  have hlast : ∀ x ∈ bs.reverse, isDigit x = true := by
+    intro x hx
+    exact (List.all_eq_true.mp hall) x (List.mem_reverse.mp hx)
+  have hrev_ne : bs.reverse ≠ [] := by simpa using hne
+  have hstripL : stripL bs = bs := by
+    cases bs with
+    | nil => exact absurd rfl hne
+    | cons b r =>
+      simp only [List.all_cons, Bool.and_eq_true] at hall
+      exact stripL_digit_head hall.1
+  have hstripR : stripR bs = bs := by
+    unfold stripR
+    cases hr : bs.reverse with
+    | nil => exact absurd hr hrev_ne
+    | cons x xs =>
+      have hx : isDigit x = true := hlast x (by rw [hr]; simp)
+      rw [stripL_digit_head hx, ← hr, List.reverse_reverse]
+  unfold parsePyInt
+  rw [hstripL, hstripR]
+  cases bs with
+  | nil => exact absurd rfl hne
+  | cons b r =>
+    have hb : isDigit b = true := by
+      simp only [List.all_cons, Bool.and_eq_true] at hall
+      exact hall.1
+    have hb' : 48 ≤ b ∧ b ≤ 57 := by
+      simpa [isDigit] using hb
+    have h43 : ¬ b = 43 := by omega
+    have h45 : ¬ b = 45 := by omega
+    simp only [h43, h45, ↓reduceIte]
+    rw [parseBody_digits (b :: r) 0 .start hall (Or.inl (by simp))]
+    rfl
+
+/-- on a strict decimal size prefix the lenient parser gives the same size -/
+theorem parseSize_of_parseNat {bs : Bytes} {n : Nat} (h : parseNat bs = some n) : parseSize bs = some n := by
+  unfold parseNat at h
+  split at h
+  · rename_i hc
+    simp only [Option.some.injEq] at h
+    unfold parseSize
+    rw [parsePyInt_strict hc.1 hc.2]
+    simp [h]
+  · simp at h
+
+theorem parseSize_digits (n : Nat) : parseSize (digits n) = some n :=
+  parseSize_of_parseNat (parseNat_digits n)
+
 theorem colon_not_in_digits (n : Nat) : colon ∉ digits n := by
   intro h
   have := List.all_eq_true.mp (digits_all n) colon h
@@ -1262,7 +1356,7 @@ theorem readNs_frame (cfg : Cfg) (hrs : 0 < cfg.recvsize) (maxsize : Nat) (p res
     simp only [Prod.mk.injEq] at b
     obtain ⟨b1, b2⟩ := b
     subst b1
-    simp only [parseNat_digits]
+    simp only [parseSize_digits]
     have hnot : ¬ p.length > maxsize := by omega
     simp only [hnot, ↓reduceIte]
     -- the payload
@@ -1472,5 +1566,386 @@ theorem writeMany_conserves (maxsize : Nat) : ∀ (ps : List Bytes) (st : SSt),
       omega
 
 
+
+
+/-! ### round 2: exact fault accounting (the i-th fault of the script is the i-th fault raised) -/
+
+/-- exact timeout accounting of a call's outcome: a call that raises Timeout used up exactly one of the
+    script's timeout events, any other outcome used up none (no timeout is ever swallowed) -/
+def TOex (t : Nat) (out : Res × St) : Prop :=
+  (out.1 = .timeout → nTO out.2.script + 1 = t) ∧ (out.1 ≠ .timeout → nTO out.2.script = t)
+
+theorem recvSizeLoop_nTOex (recvsize size : Nat) :
+    ∀ (fuel : Nat) (acc : Bytes) (total : Nat) (nxt : Bytes) (script : List Ev),
+      TOex (nTO script) (recvSizeLoop recvsize size fuel acc total nxt script) := by
+  intro fuel
+  induction fuel with
+  | zero => intro acc total nxt script; simp [recvSizeLoop, TOex]
+  | succ fuel ih =>
+    intro acc total nxt script
+    unfold recvSizeLoop
+    split
+    · simp [TOex]
+    · simp only
+      split
+      · split <;> simp [TOex]
+      · cases hr : sockRecv recvsize script with
+        | timeout r =>
+          have := sockRecv_nTO_timeout hr
+          exact ⟨fun _ => this, fun h => absurd rfl h⟩
+        | data d r =>
+          have := sockRecv_nTO_data hr
+          simp only
+          have h := ih (acc ++ nxt) (total + nxt.length) d r
+          rw [this] at h
+          exact h
+
+theorem recvSize_nTOex (cfg : Cfg) (size : Nat) (st : St) :
+    TOex (nTO st.script) (recvSize cfg size st) := by
+  unfold recvSize
+  split
+  · exact recvSizeLoop_nTOex _ _ _ _ _ _ _
+  · cases hr : sockRecv cfg.recvsize st.script with
+    | timeout r =>
+      have := sockRecv_nTO_timeout hr
+      exact ⟨fun _ => this, fun h => absurd rfl h⟩
+    | data d r =>
+      have := sockRecv_nTO_data hr
+      simp only
+      have h := recvSizeLoop_nTOex cfg.recvsize size (measure r + 2) [] 0 d r
+      rw [this] at h
+      exact h
+
+theorem peek_nTOex (cfg : Cfg) (size : Nat) (st : St) :
+    TOex (nTO st.script) (peek cfg size st) := by
+  unfold peek
+  split
+  · simp [TOex]
+  · have h := recvSize_nTOex cfg size st
+    cases hq : recvSize cfg size st with
+    | mk r st' =>
+      rw [hq] at h
+      cases r <;> simpa [TOex] using h
+
+theorem recvClose_nTOex (cfg : Cfg) (m : Nat) (st : St) :
+    TOex (nTO st.script) (recvClose cfg m st) := by
+  unfold recvClose
+  have h := recvSize_nTOex cfg (m + 1) st
+  cases hq : recvSize cfg (m + 1) st with
+  | mk r st' =>
+    rw [hq] at h
+    cases r <;> simpa [TOex] using h
+
+theorem recvUntilLoop_nTOex (recvsize : Nat) (d : Bytes) (m : Nat) (w : Bool) :
+    ∀ (fuel : Nat) (recvd : Bytes) (fstart : Int) (script : List Ev),
+      TOex (nTO script) (recvUntilLoop recvsize d m w fuel recvd fstart script) := by
+  intro fuel
+  induction fuel with
+  | zero => intro recvd fstart script; simp [recvUntilLoop, TOex]
+  | succ fuel ih =>
+    intro recvd fstart script
+    unfold recvUntilLoop
+    split
+    · split <;> simp [TOex]
+    · split
+      · simp [TOex]
+      · cases hr : sockRecv recvsize script with
+        | timeout r =>
+          have := sockRecv_nTO_timeout hr
+          exact ⟨fun _ => this, fun h => absurd rfl h⟩
+        | data nxt r =>
+          have := sockRecv_nTO_data hr
+          simp only
+          split
+          · simp [TOex, this]
+          · have h := ih (recvd ++ nxt) (-(nxt.length : Int) - (d.length : Int) + 1) r
+            rw [this] at h
+            exact h
+
+theorem recvUntil_nTOex (cfg : Cfg) (d : Bytes) (m : Nat) (w : Bool) (st : St) :
+    TOex (nTO st.script) (recvUntil cfg d m w st) :=
+  recvUntilLoop_nTOex _ _ _ _ _ _ _ _
+
+theorem recv_nTOex (cfg : Cfg) (size : Nat) (st : St) :
+    TOex (nTO st.script) (recv cfg size st) := by
+  unfold recv
+  split
+  · simp [TOex]
+  · split
+    · simp [TOex]
+    · cases hr : sockRecv cfg.recvsize st.script with
+      | timeout r =>
+        have := sockRecv_nTO_timeout hr
+        exact ⟨fun _ => this, fun h => absurd rfl h⟩
+      | data d r =>
+        have := sockRecv_nTO_data hr
+        simp only
+        split <;> simp [TOex, this]
+
+theorem attempt_nTOex (cfg : Cfg) (op : Op) (st : St) :
+    TOex (nTO st.script) (attempt cfg op st) := by
+  cases op with
+  | recv n => exact recv_nTOex cfg n st
+  | peek n => exact peek_nTOex cfg n st
+  | recvSize n => exact recvSize_nTOex cfg n st
+  | recvClose m => exact recvClose_nTOex cfg m st
+  | recvUntil d m w => exact recvUntil_nTOex cfg d m w st
+
+
+
+/-- 1 when the outcome is Timeout, else 0 -/
+def SRes.isTO : SRes → Nat
+  | .timeout => 1
+  | _ => 0
+
+theorem popClock_nSF {s r : List SEv} (h : popClock s = some r) : nSF r + 1 = nSF s := by
+  cases s with
+  | nil => simp [popClock] at h
+  | cons e s =>
+    cases e <;> simp [popClock] at h
+    subst h; simp [nSF]
+
+theorem sendLoop_faults : ∀ (script : List SEv) (buf : Bytes) (total : Nat) (wire : Bytes),
+    nSF (sendLoop script buf total wire).2.script + (sendLoop script buf total wire).1.isTO = nSF script := by
+  intro script
+  induction script with
+  | nil => intro buf total wire; cases buf <;> simp [sendLoop, SRes.isTO, nSF]
+  | cons e script ih =>
+    intro buf total wire
+    cases buf with
+    | nil => simp [sendLoop, SRes.isTO]
+    | cons b buf =>
+      cases e with
+      | timeout => simp [sendLoop, SRes.isTO, nSF]
+      | clock => simp [sendLoop, SRes.isTO, nSF]
+      | accept k =>
+        simp only [sendLoop]
+        cases hp : popClock script with
+        | some r' =>
+          have := popClock_nSF hp
+          simp only [SRes.isTO, nSF]
+          omega
+        | none =>
+          simp only [nSF]
+          exact ih _ _ _
+
+theorem send_faults (data : Bytes) (st : SSt) :
+    nSF (send data st).2.script + (send data st).1.isTO = nSF st.script := by
+  unfold send
+  simp only
+  split
+  · rename_i b rest _
+    exact sendLoop_faults st.script b 0 st.wire
+  · simp [SRes.isTO]
+
+theorem flush_faults (st : SSt) :
+    nSF (flush st).2.script + (flush st).1.isTO = nSF st.script := by
+  have h := send_faults [] st
+  unfold flush
+  cases hq : send [] st with
+  | mk r st' =>
+    rw [hq] at h
+    cases r <;> simpa [SRes.isTO] using h
+
+theorem sstep_faults (op : SOp) (st : SSt) :
+    nSF (sstep op st).2.script + (sstep op st).1.isTO = nSF st.script := by
+  cases op with
+  | send d => exact send_faults d st
+  | buffer d => simp [sstep, buffer, SRes.isTO]
+  | flush => exact flush_faults st
+
+/-! ### round 2: argument resolution (`Call`), NetstringSocket configuration (`NsSock`), read_ns never
+    duplicates or reorders -/
+
+/-- no operation looks at `cfg.maxsize`: every maxsize has been resolved into the `Op` -/
+theorem attempt_cfg (rs m₁ m₂ : Nat) (op : Op) (st : St) :
+    attempt ⟨rs, m₁⟩ op st = attempt ⟨rs, m₂⟩ op st := by
+  cases op <;> rfl
+
+theorem retryLoop_cfg (rs m₁ m₂ : Nat) (op : Op) : ∀ (fuel : Nat) (st : St),
+    retryLoop ⟨rs, m₁⟩ op fuel st = retryLoop ⟨rs, m₂⟩ op fuel st := by
+  intro fuel
+  induction fuel with
+  | zero => intro st; rfl
+  | succ fuel ih =>
+    intro st
+    simp only [retryLoop]
+    rw [attempt_cfg rs m₁ m₂ op st]
+    cases hq : attempt ⟨rs, m₂⟩ op st with
+    | mk r st' =>
+      cases r <;> simp only
+      exact ih st'
+
+theorem callRetry_cfg (rs m₁ m₂ : Nat) (op : Op) (st : St) :
+    callRetry ⟨rs, m₁⟩ op st = callRetry ⟨rs, m₂⟩ op st := by
+  unfold callRetry
+  exact retryLoop_cfg rs m₁ m₂ op _ st
+
+theorem runRetry_cfg (rs m₁ m₂ : Nat) : ∀ (ops : List Op) (st : St),
+    runRetry ⟨rs, m₁⟩ ops st = runRetry ⟨rs, m₂⟩ ops st := by
+  intro ops
+  induction ops with
+  | nil => intro st; rfl
+  | cons op ops ih =>
+    intro st
+    simp only [runRetry]
+    rw [callRetry_cfg rs m₁ m₂ op st, ih]
+
+/-- a session of public calls is the session of the resolved operations -/
+theorem runCalls_eq (large : Nat) : ∀ (calls : List Call) (cfg : Cfg) (st : St),
+    runCalls large cfg calls st = runRetry cfg (resolveCalls large cfg.maxsize calls) st := by
+  intro calls
+  induction calls with
+  | nil => intro cfg st; rfl
+  | cons c cs ih =>
+    intro cfg st
+    simp only [runCalls, resolveCalls]
+    cases hop : c.op large cfg.maxsize with
+    | some op =>
+      simp only [runRetry]
+      rw [ih cfg (callRetry cfg op st).2]
+    | none =>
+      simp only
+      rw [ih]
+      exact runRetry_cfg cfg.recvsize _ _ _ st
+
+theorem resolveCalls_det (large : Nat) : ∀ (calls : List Call) (selfMax : Nat),
+    (∀ c ∈ calls, c.deterministic = true) →
+    ∀ op ∈ resolveCalls large selfMax calls, op.deterministic = true := by
+  intro calls
+  induction calls with
+  | nil => intro _ _ op h; simp [resolveCalls] at h
+  | cons c cs ih =>
+    intro selfMax hall op hop
+    have hc := hall c (by simp)
+    have hcs : ∀ c' ∈ cs, c'.deterministic = true := fun c' h => hall c' (by simp [h])
+    simp only [resolveCalls] at hop
+    cases c with
+    | recv n => simp [Call.deterministic] at hc
+    | peek n =>
+      simp only [Call.op, List.mem_cons] at hop
+      rcases hop with h | h
+      · subst h; rfl
+      · exact ih _ hcs op h
+    | recvSize n =>
+      simp only [Call.op, List.mem_cons] at hop
+      rcases hop with h | h
+      · subst h; rfl
+      · exact ih _ hcs op h
+    | recvUntil d m w =>
+      simp only [Call.op, List.mem_cons] at hop
+      rcases hop with h | h
+      · subst h; rfl
+      · exact ih _ hcs op h
+    | recvClose m =>
+      simp only [Call.op, List.mem_cons] at hop
+      rcases hop with h | h
+      · subst h; rfl
+      · exact ih _ hcs op h
+    | setMaxsize n =>
+      simp only [Call.op] at hop
+      exact ih _ hcs op hop
+
+/-- the cached prefix window agrees with the current maxsize -/
+def NsSock.WF (ns : NsSock) : Prop := ns.window = calcWindow ns.maxsize
+
+theorem readNsWith_calc (cfg : Cfg) (m : Nat) (st : St) :
+    readNsWith cfg m (calcWindow m) st = readNs cfg m st := rfl
+
+theorem NsSock.readNs_eq (cfg : Cfg) (ns : NsSock) (h : ns.WF) (arg : Option Nat) (st : St) :
+    ns.readNs cfg arg st = C12.readNs cfg (arg.getD ns.maxsize) st := by
+  cases arg with
+  | none => simp only [NsSock.readNs, Option.getD]; rw [h]; rfl
+  | some m => rfl
+
+theorem NsSock.readNsMany_eq (cfg : Cfg) (ns : NsSock) (h : ns.WF) (arg : Option Nat) :
+    ∀ (k : Nat) (st : St),
+    NsSock.readNsMany cfg ns arg k st = C12.readNsMany cfg (arg.getD ns.maxsize) k st := by
+  intro k
+  induction k with
+  | zero => intro st; rfl
+  | succ k ih =>
+    intro st
+    simp only [NsSock.readNsMany, C12.readNsMany]
+    rw [NsSock.readNs_eq cfg ns h arg st, ih]
+
+/-- whatever read_ns returns or raises (Timeout in either phase, NetstringInvalidSize, … included),
+    the bytes still owed afterwards are a suffix of the bytes owed before: nothing is duplicated,
+    nothing is reordered, nothing is read twice -/
+theorem readNs_suffix (cfg : Cfg) (hrs : 0 < cfg.recvsize) (maxsize : Nat) (st : St) :
+    ∃ c, c ++ (readNs cfg maxsize st).2.view = st.view := by
+  have e1 := attempt_conserves cfg hrs (.recvUntil [colon] ((digits maxsize).length + 1) false) st
+  simp only [attempt] at e1
+  unfold readNs
+  cases hq1 : recvUntil cfg [colon] ((digits maxsize).length + 1) false st with
+  | mk r1 st1 =>
+  rw [hq1] at e1
+  simp only at e1
+  cases r1 with
+  | closed => exact ⟨_, e1⟩
+  | tooLong => exact ⟨_, e1⟩
+  | timeout => exact ⟨_, e1⟩
+  | fuel => exact ⟨_, e1⟩
+  | ok pre =>
+    simp only
+    cases hp : parseSize pre with
+    | none => exact ⟨_, e1⟩
+    | some size =>
+      simp only
+      by_cases hs : size > maxsize
+      · simp only [hs, ↓reduceIte]; exact ⟨_, e1⟩
+      · simp only [hs, ↓reduceIte]
+        have e2 := attempt_conserves cfg hrs (.recvSize size) st1
+        simp only [attempt] at e2
+        cases hq2 : recvSize cfg size st1 with
+        | mk r2 st2 =>
+        rw [hq2] at e2
+        simp only at e2
+        have e12 : (consumed (.recvUntil [colon] ((digits maxsize).length + 1) false) (.ok pre)
+            ++ consumed (.recvSize size) r2) ++ st2.view = st.view := by
+          rw [List.append_assoc, e2, e1]
+        cases r2 with
+        | closed => exact ⟨_, e12⟩
+        | tooLong => exact ⟨_, e12⟩
+        | timeout => exact ⟨_, e12⟩
+        | fuel => exact ⟨_, e12⟩
+        | ok payload =>
+          simp only
+          have e3 := attempt_conserves cfg hrs (.recv 1) st2
+          simp only [attempt] at e3
+          cases hq3 : recv cfg 1 st2 with
+          | mk r3 st3 =>
+          rw [hq3] at e3
+          simp only at e3
+          have e123 : ((consumed (.recvUntil [colon] ((digits maxsize).length + 1) false) (.ok pre)
+              ++ consumed (.recvSize size) (.ok payload)) ++ consumed (.recv 1) r3) ++ st3.view
+              = st.view := by
+            rw [List.append_assoc, e3, e12]
+          cases r3 with
+          | closed => exact ⟨_, e123⟩
+          | tooLong => exact ⟨_, e123⟩
+          | timeout => exact ⟨_, e123⟩
+          | fuel => exact ⟨_, e123⟩
+          | ok c =>
+            simp only
+            by_cases hc : c = [comma]
+            · simp only [hc, ↓reduceIte]; rw [hc] at e123; exact ⟨_, e123⟩
+            · simp only [hc, ↓reduceIte]; exact ⟨_, e123⟩
+
+/-- a Timeout raised while read_ns is still looking for the size prefix leaves every byte in place:
+    calling read_ns again resumes the same frame -/
+theorem readNs_prefix_timeout_keeps (cfg : Cfg) (hrs : 0 < cfg.recvsize) (maxsize : Nat) (st : St)
+    (h : (recvUntil cfg [colon] ((digits maxsize).length + 1) false st).1 = .timeout) :
+    (readNs cfg maxsize st).1 = .timeout ∧ (readNs cfg maxsize st).2.view = st.view := by
+  have e1 := attempt_conserves cfg hrs (.recvUntil [colon] ((digits maxsize).length + 1) false) st
+  simp only [attempt] at e1
+  unfold readNs
+  cases hq1 : recvUntil cfg [colon] ((digits maxsize).length + 1) false st with
+  | mk r1 st1 =>
+  rw [hq1] at e1 h
+  simp only at e1 h
+  subst h
+  simp only [NsRes.ofRes]
+  exact ⟨trivial, by simpa [consumed] using e1⟩
 
 end C12
